@@ -198,6 +198,27 @@ EffMode(mode, knob) == IF knob.force # "none" THEN knob.force ELSE IF mode # "no
 PreUnfuse(a, U) == U \subseteq 1..LRank(a)
 Unfuse(a, U) == [a EXCEPT !.grp = Concat([k \in 1..LRank(a) |-> IF k \in U /\ a.grp[k][1][1] > 0 THEN Kids(a.grp[k]) ELSE <<a.grp[k]>>])]
 
+(* ------------------------- diagonal tensors -------------------------- *)
+(* diag(): matrix -> diagonal tensor keeps only the diagonal elements; diagonal tensor -> the same elements as an ordinary matrix *)
+PreDiag(a) == a.dg \/ (/\ NRank(a) = 2 /\ LRank(a) = 2 /\ a.s[1] = -a.s[2] /\ a.n = Zero(Mod(a.sym))
+                        /\ a.grp[1] = Leaf /\ a.grp[2] = Leaf)
+Diag(a) == IF a.dg THEN [a EXCEPT !.dg = FALSE]
+           ELSE [a EXCEPT !.dg = TRUE, !.ent = {e \in a.ent : e[1][1] = e[1][2]}]
+DVal(d, lb) == ValAt(d, <<lb, lb>>)
+(* broadcast(d, b, axis): multiply b along one unfused leg by the diagonal of d; sectors absent in d give zero *)
+PreBroadcast(d, b, k) == d.dg /\ d.sym = b.sym /\ k \in 1..LRank(b) /\ b.grp[k] = Leaf
+Broadcast(d, b, k) == LET nk == NatOf(b, k)[1] IN
+                      [b EXCEPT !.ent = {e \in {<<f[1], CMul(f[2], DVal(d, f[1][nk]))>> : f \in b.ent} : e[2] # CZ}]
+(* apply_mask(d, b, axis): keep the indices where the diagonal of d is non-zero and renumber them inside each sector *)
+KeptIdx(d, t) == {i \in 1..DimOf(d.legs[1], t) : DVal(d, <<t, i>>) # CZ}
+NewIdx(d, lb) == Cardinality({j \in KeptIdx(d, lb[1]) : j <= lb[2]})
+MaskLeg(d, leg) == SelectSeq([i \in 1..Len(leg) |-> IF HasSec(d.legs[1], leg[i][1]) THEN <<leg[i][1], Cardinality(KeptIdx(d, leg[i][1]))>> ELSE <<leg[i][1], 0>>],
+                             LAMBDA p : p[2] > 0)
+ApplyMask(d, b, k) == LET nk == NatOf(b, k)[1]
+                          sel == {f \in b.ent : HasSec(d.legs[1], f[1][nk][1]) /\ f[1][nk][2] \in KeptIdx(d, f[1][nk][1])} IN
+                      [b EXCEPT !.legs = [j \in 1..NRank(b) |-> IF j = nk \/ (b.dg /\ j \in {1, 2}) THEN MaskLeg(d, b.legs[j]) ELSE b.legs[j]],
+                                !.ent = {<<[j \in 1..NRank(b) |-> IF j = nk \/ (b.dg /\ j \in {1, 2}) THEN <<f[1][j][1], NewIdx(d, f[1][j])>> ELSE f[1][j]], f[2]>> : f \in sel}]
+
 (* ------------------------------ swap gate ------------------------------ *)
 (* ferm: per charge component TRUE/FALSE.  parity of a group of native legs G for label lab in component c *)
 ParC(a, lab, G, c) == (SumSet({0}) + MapThenSumSet(LAMBDA k : lab[k][1][c], G)) % 2
